@@ -48,6 +48,7 @@ def _harnesses():
 
 ID = "C04"
 PROP = {
+    "max_jobs": 3,  # parallel CBMC jobs (memory profile of these harnesses)
     "claim": "for each listed skeleton (concrete dispatch bytes: IP version/IHL byte, protocol / next-header bytes, ether "
              "types, 8 byte IPv6 extension headers) and EVERY value of all other bytes and every slice length 0..=N: "
              "struct decoding and slicing of the same bytes give the same verdict (same error kind, layer and numbers, "
